@@ -13,19 +13,53 @@ AST nodes that a rule only passes on to a sub-visit are opaque keys (`Key[StmtBl
 """
 from speclib import *
 from spec.c15 import *
+from spec.c15x import *
 
 
 class SC__visit_expr(Contract):
     target = 'fpy2.analysis.syntax_check:SyntaxCheckInstance._visit_expr'
-    params = {'self': 'SyntaxCheckInstance', 'e': 'Key[Expr]', 'ctx': '_Ctx'}
+    params = {'self': 'SyntaxCheckInstance',
+              'e': ('Union[Var, BoolVal, Decnum, Hexnum, Integer, Rational, Digits, ForeignVal, NullaryOp, UnaryOp, NamedUnaryOp, '
+                    'BinaryOp, NamedBinaryOp, TernaryOp, NamedTernaryOp, NaryOp, NamedNaryOp, ConstNan, ConstInf, ConstPi, ConstE, '
+                    'ConstLog2E, ConstLog10E, ConstLn2, ConstPi_2, ConstPi_4, Const1_Pi, Const2_Pi, Const2_SqrtPi, ConstSqrt2, '
+                    'ConstSqrt1_2, Add, Sub, Mul, Div, Abs, Sqrt, Fma, Neg, Copysign, Fdim, Hypot, Max, Min, AMax, AMin, Mod, Fmod, '
+                    'Remainder, Cbrt, Sum, Ceil, Floor, NearbyInt, RoundInt, Trunc, Acos, Asin, Atan, Atan2, Cos, Sin, Tan, Acosh, Asinh, '
+                    'Atanh, Cosh, Sinh, Tanh, Exp, Exp2, Expm1, Log, Log10, Log1p, Log2, Pow, Erf, Erfc, Lgamma, Tgamma, IsFinite, IsInf, '
+                    'IsNan, IsNormal, Signbit, Logb, Not, Or, And, AnyOf, AllOf, Round, RoundAt, Cast, Len, Size, Range1, Range2, Range3, '
+                    'Dim, Fst, Snd, Empty, Zip, Enumerate, Call, Attribute, Compare, TupleExpr, ListExpr, ListComp, ListRef, ListSlice, '
+                    'IfExpr]'),
+              'ctx': '_Ctx'}
+    overrides = {'e.name@Var': 'Key[NamedId] | UnderscoreId',
+                 'e.args@UnaryOp': 'tuple[Key[Expr]]', 'e.args@BinaryOp': 'tuple[Key[Expr], Key[Expr]]',
+                 'e.args@TernaryOp': 'tuple[Key[Expr], Key[Expr], Key[Expr]]',
+                 'e.args@NaryOp': 'KeySeq[Expr]', 'e.args@Compare': 'KeySeq[Expr]',
+                 'e.args@Call': 'KeySeq[Expr]', 'e.kwargs@Call': 'PairSeq[Expr]',
+                 'e.func@Call': 'Var | Attribute', 'e.func.name@Call': 'Key[NamedId]', 'e.func.value@Call': 'Key[Expr]',
+                 'e.elts@TupleExpr': 'KeySeq[Expr]', 'e.elts@ListExpr': 'KeySeq[Expr]',
+                 'e.targets@ListComp': 'KeySeq[TupleBinding]', 'e.iterables@ListComp': 'KeySeq[Expr]', 'e.elt@ListComp': 'Key[Expr]',
+                 'e.value@ListRef': 'Key[Expr]', 'e.index@ListRef': 'Key[Expr]',
+                 'e.value@ListSlice': 'Key[Expr]', 'e.start@ListSlice': 'Key[Expr] | None', 'e.stop@ListSlice': 'Key[Expr] | None',
+                 'e.cond@IfExpr': 'Key[Expr]', 'e.ift@IfExpr': 'Key[Expr]', 'e.iff@IfExpr': 'Key[Expr]',
+                 'e.value@Attribute': 'Key[Expr]'}
+    split = ['e']
     returns = 'None'
     properties = ['C15']
-    trusted = True
     modifies = ['self.free_var_args']
     may_raise = ['FPySyntaxError']
-    note = ('ASSUMED: SyntaxCheckInstance._visit_expr(e, ctx) either raises FPySyntaxError or returns None, '
-            'changing only self.free_var_args (that it checks every Var of e against ctx.env is D3, '
-            'proved only for _visit_var/_mark_use)')
+    note = ('VERIFIED per expression class (115 classes of fpy2/ast/fpyast.py: every class below a key of '
+            'visitor._expr_dispatch): the dynamic dispatch of ast/visitor.py (type(e).__mro__, _expr_dispatch) reaches '
+            'the visitor of the class, whose contract (contracts/c15x_expr.py, c15_visit.py SC__visit_var) gives D3: a '
+            'normal return means every free use of e (spec/c15x.py `uses`, by structural recursion; children are opaque '
+            'nodes with the abstract use set) is marked defined-on-all-paths in ctx.env.  Used at call sites on opaque '
+            'children = the induction hypothesis of the structural induction over the AST.  pre listcomp_wf = the '
+            'assert of ListComp.__init__')
+
+    def pre(self, e):
+        return {'listcomp_wf': (seq_len(e.targets) == seq_len(e.iterables)) if cls_name(e) == 'ListComp' else True}
+
+    def post(self, e, ctx, result, old):
+        return dict(ctx_frame(ctx, old.ctx), none=result is None,
+                    uses_bound=uses_bound(self, e, ctx.env))      # D3, spec/c15x.py
 
 
 class SC__visit_statement(Contract):
@@ -47,12 +81,12 @@ class SC__visit_statement(Contract):
             'reaches the rule of the class, and that rule\'s contract gives [[R]] ⊆ DA(stmt, [[ctx.env]]) with '
             'gen_stmt/term_stmt = the rule set of spec/c15.py by cases on the class')
 
-    def post(self, stmt, ctx, result):
-        return {
+    def post(self, stmt, ctx, result, old):
+        return dict(ctx_frame(ctx, old.ctx), **{
             'live': implies(live(ctx) and not term_stmt(stmt), not result.terminated),
             'da': implies(live(ctx) and not result.terminated,
                           forall_keys('NamedId', lambda k: implies(bound(result, k), in_da_stmt(stmt, ctx.env, k)))),
-        }
+        })
 
 
 class SC__visit_block(Contract):
@@ -77,26 +111,40 @@ class SC__visit_block(Contract):
                           forall_keys('NamedId', lambda k: implies(bound(env, k), in_da_prefix(block, done, ctx.env, k)))),
         }
 
-    def post(self, block, ctx, result):
-        return {
+    def post(self, block, ctx, result, old):
+        return dict(ctx_frame(ctx, old.ctx), **{
             'live': implies(live(ctx) and not term_block(block), not result.terminated),
             'da': implies(live(ctx) and not result.terminated,
                           forall_keys('NamedId', lambda k: implies(bound(result, k), in_da_block(block, ctx.env, k)))),
-        }
+        })
 
 
 class SC__visit_binding(Contract):
     target = 'fpy2.analysis.syntax_check:SyntaxCheckInstance._visit_binding'
-    params = {'self': 'SyntaxCheckInstance', 'binding': 'Key[NamedId] | UnderscoreId', 'env': '_Env'}
+    params = {'self': 'SyntaxCheckInstance', 'binding': 'Key[NamedId] | UnderscoreId | TupleBinding', 'env': '_Env'}
+    overrides = {'binding.elts': 'KeySeq[TupleBinding]'}
     returns = '_Env'
     properties = ['C15']
-    note = ('verified for the leaf patterns NamedId and UnderscoreId; for a TupleBinding (recursive fold over '
-            'its elements) the same contract is ASSUMED with binds(pattern, k) = "k is bound by some element"')
+    note = ('verified for NamedId, UnderscoreId and TupleBinding: the recursion over binding.elts (symbolic length; an '
+            'element is an opaque pattern, key sort `TupleBinding` used for any pattern class) by the loop rule, with the '
+            'contract itself as induction hypothesis for the elements; axioms = DEFINITION of binds_tuple as the union '
+            'over the elements (spec.c15x.binds_fold_def)')
 
-    def post(self, binding, env, result):
+    def axioms(self, binding):
+        return binds_fold_def(binding) if cls_name(binding) == 'TupleBinding' else {}
+
+    def inv0(self, binding, env, done, old):
+        return {
+            'terminated': env.terminated == old.env.terminated,
+            'names': forall_keys('NamedId', lambda k: bound(env, k) == (bound(old.env, k) or binds_prefix(binding, done, k))),
+        }
+
+    def post(self, binding, env, result, old):
         return {
             'terminated': result.terminated == env.terminated,
             'names': forall_keys('NamedId', lambda k: bound(result, k) == (bound(env, k) or binds(binding, k))),
+            # the caller's env object is not written to (it is the env of the enclosing statement)
+            'frame_env': same_env(env, old.env),
         }
 
     def raises(self, binding, env):
@@ -116,12 +164,12 @@ class SC__visit_assign(Contract):
     may_raise = ['FPySyntaxError']
     options = {'call_counts': {'SyntaxCheckInstance._visit_expr': 1}}
 
-    def post(self, stmt, ctx, result):
-        return {
+    def post(self, stmt, ctx, result, old):
+        return dict(ctx_frame(ctx, old.ctx), **{
             'live': implies(live(ctx), not result.terminated),
             'da': implies(live(ctx), forall_keys('NamedId', lambda k: implies(bound(result, k), bound(ctx.env, k) or binds(stmt.target, k)))),
             'exact': forall_keys('NamedId', lambda k: bound(result, k) == (bound(ctx.env, k) or binds(stmt.target, k))),
-        }
+        })
 
 
 class SC__visit_if1(Contract):
@@ -134,8 +182,8 @@ class SC__visit_if1(Contract):
     may_raise = ['FPySyntaxError']
     options = {'call_counts': {'SyntaxCheckInstance._visit_expr': 1}}
 
-    def post(self, stmt, ctx, result):
-        return {'da': da_unchanged(ctx, result)}
+    def post(self, stmt, ctx, result, old):
+        return dict(ctx_frame(ctx, old.ctx), **{'da': da_unchanged(ctx, result)})
 
 
 class SC__visit_for(Contract):
@@ -149,8 +197,8 @@ class SC__visit_for(Contract):
     may_raise = ['FPySyntaxError']
     options = {'call_counts': {'SyntaxCheckInstance._visit_expr': 1}}
 
-    def post(self, stmt, ctx, result):
-        return {'da': da_unchanged(ctx, result)}
+    def post(self, stmt, ctx, result, old):
+        return dict(ctx_frame(ctx, old.ctx), **{'da': da_unchanged(ctx, result)})
 
 
 class SC__visit_if(Contract):
@@ -163,14 +211,14 @@ class SC__visit_if(Contract):
     may_raise = ['FPySyntaxError']
     options = {'call_counts': {'SyntaxCheckInstance._visit_expr': 1}}
 
-    def post(self, stmt, ctx, result):
-        return {
+    def post(self, stmt, ctx, result, old):
+        return dict(ctx_frame(ctx, old.ctx), **{
             # DA(if) = DAblock(ift, V) ∩ DAblock(iff, V); TOP only if both arms terminate
             'term': implies(live(ctx) and result.terminated, term_block(stmt.ift) and term_block(stmt.iff)),
             'da': implies(live(ctx) and not result.terminated,
                           forall_keys('NamedId', lambda k: implies(bound(result, k),
                                       in_da_block(stmt.ift, ctx.env, k) and in_da_block(stmt.iff, ctx.env, k)))),
-        }
+        })
 
 
 class SC__visit_while(Contract):
@@ -183,8 +231,8 @@ class SC__visit_while(Contract):
     may_raise = ['FPySyntaxError']
     options = {'call_counts': {'SyntaxCheckInstance._visit_expr': 1}}
 
-    def post(self, stmt, ctx, result):
-        return {'da': da_unchanged(ctx, result)}
+    def post(self, stmt, ctx, result, old):
+        return dict(ctx_frame(ctx, old.ctx), **{'da': da_unchanged(ctx, result)})
 
 
 class SC__visit_context(Contract):
@@ -197,14 +245,14 @@ class SC__visit_context(Contract):
     may_raise = ['FPySyntaxError']
     options = {'call_counts': {'SyntaxCheckInstance._visit_expr': 1}}
 
-    def post(self, stmt, ctx, result):
-        return {
+    def post(self, stmt, ctx, result, old):
+        return dict(ctx_frame(ctx, old.ctx), **{
             # DA(with e as t: b) = DAblock(b, V ∪ {t})
             'term': implies(live(ctx) and result.terminated, term_block(stmt.body)),
             'da': implies(live(ctx) and not result.terminated,
                           forall_keys('NamedId', lambda k: implies(bound(result, k),
                                       in_da_block(stmt.body, ctx.env, k) or binds(stmt.target, k)))),
-        }
+        })
 
 
 class SC__visit_indexed_assign(Contract):
@@ -220,11 +268,11 @@ class SC__visit_indexed_assign(Contract):
     def inv0(self, stmt, ctx, env, done):
         return {'env': same_obj(env, ctx.env)}
 
-    def post(self, stmt, ctx, result):
-        return {
+    def post(self, stmt, ctx, result, old):
+        return dict(ctx_frame(ctx, old.ctx), **{
             'same': same_env(result, ctx.env),
             'var_checked': bound(ctx.env, stmt.var),       # xs[i] = e uses xs
-        }
+        })
 
 
 class SC__visit_assert(Contract):
@@ -236,8 +284,8 @@ class SC__visit_assert(Contract):
     modifies = ['self.free_var_args']
     may_raise = ['FPySyntaxError']
 
-    def post(self, stmt, ctx, result):
-        return {'same': same_env(result, ctx.env)}
+    def post(self, stmt, ctx, result, old):
+        return dict(ctx_frame(ctx, old.ctx), **{'same': same_env(result, ctx.env)})
 
 
 class SC__visit_effect(Contract):
@@ -250,8 +298,8 @@ class SC__visit_effect(Contract):
     may_raise = ['FPySyntaxError']
     options = {'call_counts': {'SyntaxCheckInstance._visit_expr': 1}}
 
-    def post(self, stmt, ctx, result):
-        return {'same': same_env(result, ctx.env)}
+    def post(self, stmt, ctx, result, old):
+        return dict(ctx_frame(ctx, old.ctx), **{'same': same_env(result, ctx.env)})
 
 
 class SC__visit_return(Contract):
@@ -264,9 +312,9 @@ class SC__visit_return(Contract):
     may_raise = ['FPySyntaxError']
     options = {'call_counts': {'SyntaxCheckInstance._visit_expr': 1}}
 
-    def post(self, stmt, ctx, result):
+    def post(self, stmt, ctx, result, old):
         # DA(return) = TOP: nothing to bound; the rule set says the path ends here
-        return {'terminated': result.terminated}
+        return dict(ctx_frame(ctx, old.ctx), **{'terminated': result.terminated})
 
 
 class SC__visit_pass(Contract):
@@ -275,8 +323,8 @@ class SC__visit_pass(Contract):
     returns = '_Env'
     properties = ['C15']
 
-    def post(self, stmt, ctx, result):
-        return {'same': same_env(result, ctx.env)}
+    def post(self, stmt, ctx, result, old):
+        return dict(ctx_frame(ctx, old.ctx), **{'same': same_env(result, ctx.env)})
 
     def raises(self, stmt, ctx):
         return {}
@@ -290,9 +338,9 @@ class SC__visit_var(Contract):
     properties = ['C15']
     modifies = ['self.free_var_args']
 
-    def post(self, e, ctx, result):
+    def post(self, e, ctx, result, old):
         # D3: a use that is accepted is defined on every path
-        return {'checked': bound(ctx.env, e.name) if cls_name(e.name) == 'NamedId' else self.allow_wildcard}
+        return dict(ctx_frame(ctx, old.ctx), **{'checked': bound(ctx.env, e.name) if cls_name(e.name) == 'NamedId' else self.allow_wildcard})
 
     def raises(self, e, ctx):
         return {'FPySyntaxError': (not bound(ctx.env, e.name)) if cls_name(e.name) == 'NamedId' else (not self.allow_wildcard)}
